@@ -1195,10 +1195,12 @@ fn large_copy_cases(out: &mut Out, rng: &mut Rng, n: usize) {
 fn range_cases(out: &mut Out) {
     for n in 0..=5usize {
         let lim = n as isize + 2;
+        // small window plus the extreme bounds (isize::MIN / MAX and neighbours)
+        let mut bounds: Vec<isize> = (-lim..=lim).collect();
+        bounds.extend([isize::MIN, isize::MIN + 1, isize::MAX - 1, isize::MAX]);
         for step in [-7isize, -3, -2, -1, 1, 2, 3, 7] {
-            for s in -lim..=lim {
-                for e in (-lim - 1)..=lim {
-                    let e = if e == -lim - 1 { None } else { Some(e) };
+            for &s in &bounds {
+                for e in std::iter::once(None).chain(bounds.iter().map(|&b| Some(b))) {
                     let req = format!(
                         "R {s} {} {step} {n}",
                         e.map(|e| e.to_string()).unwrap_or_else(|| "_".into())
@@ -1249,12 +1251,15 @@ fn copy_blocked_cases(out: &mut Out, rng: &mut Rng, n: usize) {
             if rng.chance(1, 2) { rows = *rng.pick(&sizes[..10]) } else { cols = *rng.pick(&sizes[..10]) }
         }
         let cs = *rng.pick(&[32usize, 48, 64, 96]);
-        let rs = match rng.below(4) {
-            0 => 1,
-            1 => 2 + rng.usize_below(3),
-            2 => 5 + rng.usize_below(11),
+        let rs = match rng.below(5) {
+            0 | 1 => 1,
+            2 => 2 + rng.usize_below(3),
+            3 => 5 + rng.usize_below(11),
             _ => cs * cols + rng.usize_below(3),
         };
+        if rs == 1 && rows >= 4 && cols >= 4 {
+            out.bucket("copy_blocked_transposing_kernel_reached");
+        }
         let req = format!("CB {rows} {cols} {rs} {cs}");
         let storelen = (rows - 1) * rs + (cols - 1) * cs + 1;
         let store: Vec<u32> = (0..storelen as u32).collect();
@@ -1300,5 +1305,5 @@ fn run(args: &Args) {
     for i in 0..n {
         random_case(&mut out, &mut rng, i % 3 == 0);
     }
-    out.finish("copy_blocked through to_vec on rows x cols views (sizes 1..70, column strides 32/48/64/96, row strides 1, 2..4, 5..15, past-the-row) compared with the Lean write-by-write model; append/clip_dim with axis >= ndim one time in ten; SliceRange::steps/resolve/resolve_clamped driven directly for n=0..5, start/stop in [-n-2,n+2] or omitted, steps ±1,±2,±3,±7; rank-5/6 slice_copy cases (recursive copy branch) with reversed, stepped, shrinking, clamped ranges and index items at every axis position; large-copy family (400 / 4000 cases): 2..6-D sources with up to 1600 elements, inner sizes 1..67 straddling the 4x4 tile and 64x64 block of copy_blocked, innermost strides 1,2,3,16,20,32,48,64,96,128 and row strides 1..70 or past-the-row, optional broadcast/padded outer axes, followed by tc / rs / tr+tc / perm+tc / slc / stepped sl+tc / ma+tc, every case ending with to_vec, map, to_tensor and copy_from (contiguous and transposed destination) compared with element-wise get; exhaustive 1-D slice specs (start,stop in [-n-2,n+2] or omitted, steps ±1,±2,±3,±6, n=0..4) for slice and slice_copy; index+reversed-range combinations on transposed 2-D sources; random chains of 1..5 ops (perm tr mv sl slc sa ix bc ia ra sq ma spl spr rs tc, every third chain also app/clip) generated against the reference shape (1 in 14 ops deliberately invalid) on random sources: rank 0..4, sizes 0..4, contiguous / permuted / stepped / broadcast(stride 0) / arbitrary strides, optional slack at the end of the buffer; element values = storage offsets (unique ids); non-trivial = chain of >=2 ops with a result of >=2 elements; distinct by request text");
+    out.finish("copy_blocked through to_vec on rows x cols views (sizes 1..70, column strides 32/48/64/96, row strides 1, 2..4, 5..15, past-the-row) compared with the Lean write-by-write model; append/clip_dim with axis >= ndim one time in ten; SliceRange::steps/resolve/resolve_clamped driven directly for n=0..5, start/stop in [-n-2,n+2], isize::MIN, MIN+1, MAX-1, MAX or omitted, steps ±1,±2,±3,±7; rank-5/6 slice_copy cases (recursive copy branch) with reversed, stepped, shrinking, clamped ranges and index items at every axis position; large-copy family (400 / 4000 cases): 2..6-D sources with up to 1600 elements, inner sizes 1..67 straddling the 4x4 tile and 64x64 block of copy_blocked, innermost strides 1,2,3,16,20,32,48,64,96,128 and row strides 1..70 or past-the-row, optional broadcast/padded outer axes, followed by tc / rs / tr+tc / perm+tc / slc / stepped sl+tc / ma+tc, every case ending with to_vec, map, to_tensor and copy_from (contiguous and transposed destination) compared with element-wise get; exhaustive 1-D slice specs (start,stop in [-n-2,n+2] or omitted, steps ±1,±2,±3,±6, n=0..4) for slice and slice_copy; index+reversed-range combinations on transposed 2-D sources; random chains of 1..5 ops (perm tr mv sl slc sa ix bc ia ra sq ma spl spr rs tc, every third chain also app/clip) generated against the reference shape (1 in 14 ops deliberately invalid) on random sources: rank 0..4, sizes 0..4, contiguous / permuted / stepped / broadcast(stride 0) / arbitrary strides, optional slack at the end of the buffer; element values = storage offsets (unique ids); non-trivial = chain of >=2 ops with a result of >=2 elements; distinct by request text");
 }
